@@ -118,8 +118,12 @@ func (p *Path) callFunction(fn *ssa.Function, args []Value, binds []Value, calle
 	if in, ok := lookupIntrinsic(fn); ok {
 		return in(p, fn, args)
 	}
-	if p.stubs != nil {
-		if s, ok := p.stubs[fn.Name()]; ok && fn.Parent() == nil && fn.Signature.Recv() == nil {
+	if p.stubs != nil && fn.Parent() == nil {
+		if s, ok := p.stubs[fn.Name()]; ok && fn.Signature.Recv() == nil {
+			return p.callValue(s, args, caller, nil)
+		}
+		// qualified names: "import/path.Func", "(*import/path.T).Method" (receiver = first argument)
+		if s, ok := p.stubs[fn.String()]; ok {
 			return p.callValue(s, args, caller, nil)
 		}
 	}
